@@ -126,6 +126,8 @@ impl Cfg {
         let mut current_labels = HashSet::new();
         // The same labels in the order in which they are written
         let mut current_label_order = Vec::new();
+        // Those of the current labels that were written in the data segment
+        let mut current_data_labels = HashSet::new();
         let mut all_labels = HashSet::new();
 
         let label_names = old_nodes.label_names();
@@ -166,6 +168,9 @@ impl Cfg {
                 ParserNode::Label(s) => {
                     if current_labels.insert(s.name.clone()) {
                         current_label_order.push(s.name.clone());
+                        if segment == Segment::Data {
+                            current_data_labels.insert(s.name.clone());
+                        }
                     }
 
                     // Check for duplicate labels
@@ -189,8 +194,12 @@ impl Cfg {
                             | DirectiveType::Space(_)
                     ) =>
                 {
-                    current_labels.clear();
-                    current_label_order.clear();
+                    // (the labels written in the data segment, that is: a label
+                    // of the text segment in front of a `.data` ... `.text`
+                    // interlude still names the instruction behind it)
+                    current_labels.retain(|label| !current_data_labels.contains(label));
+                    current_label_order.retain(|label| !current_data_labels.contains(label));
+                    current_data_labels.clear();
                 }
                 // Ignore other types of directives
                 ParserNode::Directive(_) => {}
@@ -236,6 +245,7 @@ impl Cfg {
 
                         // Clear the current labels
                         current_labels.clear();
+                        current_data_labels.clear();
 
                         // Add the node to the graph
                         nodes.push(Rc::new(CfgNode::new(node, HashSet::new(), segment)));
@@ -255,6 +265,7 @@ impl Cfg {
 
                         // Clear the current labels
                         current_labels.clear();
+                        current_data_labels.clear();
                     }
                 }
             }
